@@ -233,6 +233,12 @@ func shJudge(c *mon.Ctx, in *shCase, legacy bool) {
 	okPre := c.Try(preName, func() { pre, perr = preCall(tx, in.Idx, flag) })
 	unchanged(preName)
 	okSh := c.Try("bt.(*Tx).CalcInputSignatureHash", func() { sh, herr = tx.CalcInputSignatureHash(in.Idx, flag) })
+	if okPre && perr == nil && len(pre) > 0 && len(pre) < 4096 {
+		c.Retain("preimage returned by "+preName, func() []byte { return pre })
+	}
+	if okSh && herr == nil && len(sh) > 0 {
+		c.Retain("signature hash", func() []byte { return sh })
+	}
 	unchanged("bt.(*Tx).CalcInputSignatureHash")
 
 	if errClass != "" {
